@@ -103,11 +103,17 @@ func (d *Dictionary) Decode(dst [][]byte, src []byte, itemsCount uint64) ([][]by
 	if err != nil {
 		return nil, err
 	}
+	if len(d.tmp)%2 != 0 {
+		return nil, fmt.Errorf("corrupted dictionary indices: odd run-length list of %d entries", len(d.tmp))
+	}
 	d.indices = decodeRLE(d.indices, d.tmp)
 	if uint64(len(d.indices)) != itemsCount {
 		return nil, fmt.Errorf("unexpected item counts; got %d; want %d", len(d.indices), itemsCount)
 	}
 	for _, index := range d.indices {
+		if uint64(index) >= uint64(len(d.values)) {
+			return nil, fmt.Errorf("corrupted dictionary index %d; dictionary has %d values", index, len(d.values))
+		}
 		dst = append(dst, d.values[index])
 	}
 	return dst, nil
